@@ -99,9 +99,15 @@ Record ghostc := mkGhost { gh_h : N; gh_or : N; gh_cr : N; gh_ow : N; gh_cw : N 
 Record lastrec := mkLast { lr_owner : ownerref; lr_req : req; lr_reply : opres; lr_hash : N }.
 (* [mn_trig]: the (client, lock-owner, file handle) triples for which the
    shared-lock-owner trigger has happened so far in this history (see trig_of) *)
+(* [mn_lease]: the lease bookkeeping the monitor keeps by itself, from the
+   requests and replies of the trace only (see lease_step) *)
+Record lmon := mkLmon { lm_clock : Z;                 (* latest clock reading any event carried *)
+                        lm_heard : list (N * Z);      (* client confirmation (short id) -> when it was last heard of *)
+                        lm_fly : list (N * N) }.      (* goroutine parked in the file system -> client it keeps busy *)
+Definition lmon_init : lmon := mkLmon 0 [] [].
 Record mon := mkMon { mn_dump : dump; mn_ghost : list ghostc; mn_pend : list mpend; mn_last : list lastrec;
-                      mn_trig : list (N * N * N) }.
-Definition mon_init : mon := mkMon (empty_dump 0) [] [] [] [].
+                      mn_trig : list (N * N * N); mn_lease : lmon }.
+Definition mon_init : mon := mkMon (empty_dump 0) [] [] [] [] lmon_init.
 
 Definition b2n (b : bool) : N := if b then 1 else 0.
 
@@ -670,6 +676,107 @@ Definition io_target (D : dump) (sid : stateid) : N :=
   | _ => 0
   end.
 
+(* ---- C18: a client is expired only once its lease has really lapsed --------
+   The monitor keeps, per client confirmation, the time the client was last
+   heard of.  It is updated from the trace only - never from the lastSeen
+   field of the dump: by every request of the client that renews the lease
+   (RFC 7530 9.5: a valid client ID or a valid regular state ID / owner
+   sequence) and that the server accepted, with the clock reading the request
+   STARTED with (a lower bound of what the server may record when it lets go
+   of the client); for a call parked in the file system also with the clock
+   reading of its return.  State IDs are resolved to clients through the
+   pre-state dump.  A request that failed before it reached the client (bad
+   state ID, stale client ID, bad seqid) and a retransmission answered from an
+   owner's reply cache renew nothing (the code does not renew for them; not
+   counting them keeps the rule conservative). *)
+Definition ev_time (e : event) : Z := match e with EReq _ t _ _ | EOpenRet _ t _ | EIoRet _ t _ => t end.
+Definition heard_of (L : lmon) (short : N) : option Z :=
+  match find_by (fun p => fst p =? short) (lm_heard L) with Some p => Some (snd p) | None => None end.
+Definition heard_set (h : list (N * Z)) (short : N) (t : Z) : list (N * Z) :=
+  match find_by (fun p => fst p =? short) h with
+  | Some p => (short, Z.max (snd p) t) :: del_by (fun p => fst p =? short) h
+  | None => (short, t) :: h
+  end.
+Definition sid_client (D : dump) (sid : stateid) : option N :=
+  match d_oofs_by D (io_target D sid) with Some o => Some (of_client o) | None => None end.
+Definition ownerref_client (o : ownerref) : N := match o with OwOpen ck => fst ck | OwLock lk => fst lk end.
+Definition is_ok_reply (rp : reply) : bool := match rp with RpOp (ResStatus st) => st =? NFS4_OK | _ => false end.
+(* the client whose lease the accepted request [r] renews *)
+Definition renewed_client (D : dump) (r : req) (rp : reply) : option N :=
+  match r with
+  | RSetClientId _ _ =>
+      match rp with
+      | RpOp (ResSetClientId short _) => match d_conf_by D short with Some _ => None | None => Some short end   (* a new confirmation record *)
+      | _ => None end
+  | RSetClientIdConfirm short _ =>
+      if is_ok_reply rp && negb (d_confirmed_client D short) then Some short else None
+  | RRenew short => if is_ok_reply rp then Some short else None
+  | ROpen a => match rp with RpParkedOpen => Some (oa_client a) | _ => None end
+  | ROpenConfirm _ _ | ROpenDowngrade _ _ _ _ | RClose _ _ | RLockNew _ _ _ _ _ _ _ _ | RLockOld _ _ _ _ _ | RLockU _ _ _ _ _ =>
+      match owner_info D r with
+      | Some oi => if is_stateid_reply rp && match replay_candidate oi with Some _ => false | None => true end
+                   then Some (ownerref_client (oi_ref oi)) else None
+      | None => None end
+  | RLockT _ _ _ client _ | RReleaseLockOwner client _ => if is_ok_reply rp then Some client else None
+  | RIo _ sid _ _ => match rp with RpParkedIo => sid_client D sid | _ => None end
+  | RResolve => None
+  end.
+(* SETCLIENTID_CONFIRM of another confirmation of the same client (long id)
+   discards the previously confirmed one and its state: re-registration *)
+Definition rereg_of (D : dump) (e : event) (rp : reply) : option (N * N) :=
+  match e with
+  | EReq _ _ _ (RSetClientIdConfirm short _) =>
+      if is_ok_reply rp then match d_conf_by D short with Some c => Some (cf_long c, short) | None => None end else None
+  | _ => None
+  end.
+(* every confirmation that leaves the tables in this step: not while a call of
+   the client is parked in the file system; and unless the client replaced it
+   by registering again, only when nothing was heard of it for a lease period *)
+Definition lease_check (L : lmon) (D D' : dump) (e : event) (rp : reply) : string :=
+  let clock' := Z.max (lm_clock L) (ev_time e) in
+  first_of (fun c =>
+    match d_conf_by D' (cf_short c) with
+    | Some _ => ""%string
+    | None =>
+      if existsb (fun p => snd p =? cf_short c) (lm_fly L) then "C18:client-expired-during-io"%string
+      else if match rereg_of D e rp with
+              | Some (long, short) => (cf_long c =? long) && negb (cf_short c =? short)
+              | None => false end then ""%string
+      else match heard_of L (cf_short c) with
+           | Some T => if (T + lease <? clock')%Z then ""%string else "C18:client-expired-within-lease"%string
+           | None => ""%string
+           end
+    end) (d_confs D).
+Definition lease_step (L : lmon) (D : dump) (ob : obs) : lmon * string :=
+  let e := ob_ev ob in
+  let rp := ob_reply ob in
+  let err := lease_check L D (ob_dump ob) e rp in
+  let clock' := Z.max (lm_clock L) (ev_time e) in
+  let L' :=
+    match e with
+    | EReq g t _ r =>
+      match renewed_client D r rp with
+      | Some c => mkLmon clock' (heard_set (lm_heard L) c t)
+                         (match rp with RpParkedOpen | RpParkedIo => lm_fly L ++ [(g, c)] | _ => lm_fly L end)
+      | None => mkLmon clock' (lm_heard L) (lm_fly L)
+      end
+    | EOpenRet g t _ | EIoRet g t _ =>
+      match find_by (fun p => fst p =? g) (lm_fly L) with
+      | Some p => mkLmon clock' (match rp with RpOp _ => heard_set (lm_heard L) (snd p) t | _ => lm_heard L end)
+                         (del_by (fun p => fst p =? g) (lm_fly L))
+      | None => mkLmon clock' (lm_heard L) (lm_fly L)
+      end
+    end in
+  (L', err).
+(* the lease rule alone, over a trace *)
+Fixpoint lease_run (L : lmon) (D : dump) (tr : list obs) : string :=
+  match tr with
+  | [] => ""%string
+  | ob :: tl => let '(L', e) := lease_step L D ob in
+                if String.eqb e ""%string then lease_run L' (ob_dump ob) tl else e
+  end.
+Definition lease_trace_ok (tr : list obs) : bool := String.eqb (lease_run lmon_init (empty_dump 0) tr) ""%string.
+
 Definition mon_step (m : mon) (ob : obs) : mon * string :=
   let D := mn_dump m in
   let D' := ob_dump ob in
@@ -742,7 +849,8 @@ Definition mon_step (m : mon) (ob : obs) : mon * string :=
       end
     end in
   let ghost := ghost_apply (mn_ghost m) calls in
-  (mkMon D' ghost pend last T, first_err [hard; err; state_ok T D' ghost pend]).
+  let '(L', lerr) := lease_step (mn_lease m) D ob in
+  (mkMon D' ghost pend last T L', first_err [hard; err; lerr; state_ok T D' ghost pend]).
 
 Fixpoint mon_run (m : mon) (tr : list obs) : string :=
   match tr with
